@@ -100,6 +100,18 @@ def oracle(chk, p, r, m):
             continue
         mods = b["modules"]
         names = [x["name"] for x in mods]
+        # providers in nearest-context-first order: the `spp*` modules (shape shadowed_provider) are leaves that are reached only
+        # through the feature `spfeat`, so their order in the build is the order the providers of the feature were taken in
+        sp = [x for x in mods if x["name"].startswith("spp")]
+        if len(sp) >= 2:
+            chb = chain(par, b["builder"])
+            pos = [chb.index(x["context"]) if x["context"] in chb else len(chb) for x in sp]
+            chk.count("provider-order-checked")
+            if pos != sorted(pos):
+                chk.fail_oracle("order:providers-not-nearest-first",
+                                f"{b['builder']}/{b['app']}: providers of spfeat taken in the order {[(x['name'], x['context']) for x in sp]}, "
+                                f"builder chain {chb}: a provider from a farther context precedes one from a nearer context",
+                                {"project": p, "build": [b["builder"], b["app"]]})
         for f in features(b):
             chk.count("feature:" + f)
         if names[0] != b["app"]:
